@@ -209,6 +209,42 @@ func genApp(r *core.RNG, a appType) appPayload {
 	return p
 }
 
+// userCmdPayload is a caller-defined CommandPayload of a non-pointer type (the interfaces are exported;
+// an application may carry its own vendor command). On the wire it is just its bytes.
+type userCmdPayload struct{ B [3]byte }
+
+func (p userCmdPayload) MarshalBinary() ([]byte, error) { return append([]byte{}, p.B[:]...), nil }
+func (p userCmdPayload) UnmarshalBinary(data []byte) error { return nil }
+func (p userCmdPayload) Size() int                        { return len(p.B) }
+
+// c18UserPayload: a Command holding a caller-defined payload encodes to CID | payload bytes and reports that size.
+func c18UserPayload(c *core.Ctx, r *core.RNG) {
+	pl := userCmdPayload{B: [3]byte{r.Byte(), r.Byte(), r.Byte()}}
+	cid := byte(0x20 + r.Intn(0x40))
+	want := append([]byte{cid}, pl.B[:]...)
+	type cmd interface {
+		MarshalBinary() ([]byte, error)
+		Size() int
+	}
+	for name, cm := range map[string]cmd{
+		"clocksync":          clocksync.Command{CID: clocksync.CID(cid), Payload: pl},
+		"multicastsetup":     multicastsetup.Command{CID: multicastsetup.CID(cid), Payload: pl},
+		"fragmentation":      fragmentation.Command{CID: fragmentation.CID(cid), Payload: pl},
+		"firmwaremanagement": firmwaremanagement.Command{CID: firmwaremanagement.CID(cid), Payload: pl},
+	} {
+		var b []byte
+		var err error
+		var sz int
+		c.Eval(2)
+		if p, msg := core.Guard(func() { b, err = cm.MarshalBinary(); sz = cm.Size() }); p {
+			c.Violate("C18|"+name+"|caller-defined-payload|panic", "a Command with a caller-defined (non-pointer) CommandPayload panics: %s", short(msg, 300))
+		} else if err != nil || !bytes.Equal(b, want) || sz != len(want) {
+			c.Violate("C18|"+name+"|caller-defined-payload", "Command{CID %#x, caller-defined payload %x} encodes to %x (err %v) with Size() %d, want %x / %d", cid, pl.B, b, err, sz, want, len(want))
+		}
+		c.Shape("caller-defined-payload", name)
+	}
+}
+
 // c18Value applies the size / inverse / trailing-bytes oracles to one value.
 func c18Value(c *core.Ctx, a appType, p appPayload, r *core.RNG, how string) {
 	var b []byte
@@ -480,6 +516,11 @@ func mustMarshal(pkg string, cmds []appCmd) []byte {
 }
 
 func runC18(c *core.Ctx) {
+	for k := int64(0); k < 40; k++ {
+		if c.Mine("caller-defined-payload", k) {
+			c18UserPayload(c, c.RNG("caller-defined-payload", k))
+		}
+	}
 	types := appTypes()
 	// ---- encode-first
 	for ti, a := range types {
